@@ -47,6 +47,7 @@ let check_tokens (cfg : econfig) (ops : eop list) (tr : tok list) : unit =
   let fail_count = Hashtbl.create 8 in (* (inst, unit-string, run, err) -> failing invocations since last pause *)
   let run_state = Hashtbl.create 8 in  (* C09: run -> (foreign ID, run state of its last committed write) *)
   let c09_reported = Hashtbl.create 8 in
+  let lost_procs = Hashtbl.create 8 in (* C07/C11: processes whose role was revoked while parked and that have not been stepped since *)
   let cur_event = Hashtbl.create 8 in  (* proc -> event being handled (survives a lag wait) *)
   let now = ref 0 in
   List.iteri (fun n seg ->
@@ -364,6 +365,21 @@ let check_tokens (cfg : econfig) (ops : eop list) (tr : tok list) : unit =
             if not cancelled && not (List.exists (function TCall (KTW, _, _, _) -> true | _ -> false) rest) then
               bad (if on "C07" then "C07" else "C11") "an adapter call failed with an error, yet the process did not wait the error back-off (%d) before asking for its role again" (zi cfg.ec_backoff)
           | None -> ())
+       | _ -> ());
+    (* C07 / C11: a wait of a background process (consume lag, error back-off, schedule) ends cancelled only when its role was
+       lost: revoked while it was parked (OLose before this step), a lease-loss fault or a crash in this step. A wait that
+       comes back cancelled with the role still held was cut short by the process itself — the back-off / lag is not waited *)
+    (if on "C07" || on "C11" then
+       match op with
+       | OStep (i, u, pl) ->
+         let key = (zi i, u) in
+         let was_lost = Hashtbl.mem lost_procs key in
+         Hashtbl.remove lost_procs key;
+         if not was_lost && not (List.exists (fun (_, f) -> f = FCrash || f = FLease) pl)
+            && List.exists (function TCall (KTW, _, RCancel, _) -> true | _ -> false) seg then
+           bad (if on "C07" then "C07" else "C11") "a wait (consume lag / error back-off) of a background process came back cancelled although its role was not lost: the wait is not waited"
+       | OLose (i, u) -> Hashtbl.replace lost_procs (zi i, u) ()
+       | OCrash i -> Hashtbl.filter_map_inplace (fun (i', _) v -> if i' = zi i then None else Some v) lost_procs
        | _ -> ());
     (* C11: every store / stream / timeout-store call of a background process is made under the context its role scheduler
        handed out (the harness marks a call that carried any other context with API=-2) *)
